@@ -7,11 +7,17 @@ import (
 	"verifharness/props"
 )
 
-// freezeWorld writes a frozen honest case for the fuzz targets.
+// freezeWorld writes a frozen honest case for the fuzz targets, together with the collateral signer's key and the
+// two signed member texts (frozen.json beside it).
 func freezeWorld(path string) error {
-	b, err := json.Marshal(props.FuzzWorld(1))
+	c, key, tcb, qe := props.FuzzWorldWithSigner(1)
+	b, err := json.Marshal(c)
 	if err != nil {
 		return err
 	}
-	return os.WriteFile(path, b, 0o644)
+	if err := os.WriteFile(path, b, 0o644); err != nil {
+		return err
+	}
+	s, _ := json.Marshal(map[string]any{"signer_pkcs8": key, "tcb_member": tcb, "qe_member": qe})
+	return os.WriteFile(path+".signer", s, 0o644)
 }
